@@ -219,19 +219,19 @@ def d1_lists(chk: Check) -> None:
                 rets = _returns(tail)
                 if not rets or rets[-1] != lhs:
                     problems.append("the merged left side is not returned")
-                elif any(r != lhs for r in rets):
-                    problems.append(
-                        "some path returns `{}` instead of the left side "
-                        "merged in place: callers at a non-root merge point "
-                        "rely on the mutation and drop the return value"
-                        .format([r for r in rets if r != lhs][0]))
                 if not apps:
                     problems.append("no right element is ever added")
                 loops = [x for s in tail for x in ast.walk(s)
                          if isinstance(x, ast.For)]
+                # (a snapshot `list(rhs)` is complete iteration too: the
+                # two operands can be one object after anchor unification)
                 over_rhs = [l for l in loops
-                            if src(l.iter) in (rhs,
-                                               "enumerate({})".format(rhs))]
+                            if src(l.iter) in (
+                                rhs, "enumerate({})".format(rhs),
+                                "list({})".format(rhs),
+                                "enumerate(list({}))".format(rhs),
+                                "tuple({})".format(rhs),
+                                "enumerate(tuple({}))".format(rhs))]
                 if not over_rhs:
                     problems.append("the right side is not iterated "
                                     "completely")
@@ -932,6 +932,32 @@ def d2f_identity_key_as_is(chk: Check) -> None:
                 chk.ok("C05-D2f", fi, a, src(a)[:60], "the key itself")
     if n == 0:
         raise AnalysisError("first-key fallback of aoh_merge_key not found")
+    # the fallback is for "no key configured" only: with a configured key
+    # the routine returns that key whatever the record holds, so that a
+    # record lacking it is reported ("Mandatory identity key ... not
+    # present") instead of being matched on some other field
+    from sa.peval import Const as _C
+    pe = PEval()
+    for a in walk_local(fi.node):
+        if not (isinstance(a, ast.Assign) and src(a.targets[0]) == var and
+                any(isinstance(x, ast.Subscript) for x in ast.walk(a.value))):
+            continue
+        guard = parent(a)
+        if not isinstance(guard, ast.If):
+            chk.fail("C05-D2f", fi, a, "fallback to the first key",
+                     "the first-key fallback is unconditional")
+            continue
+        t = pe.truth(guard.test, {var: _C("id")})
+        text = "fallback under `if {}`".format(src(guard.test)[:50])
+        if t is False:
+            chk.ok("C05-D2f", fi, guard, text,
+                   "not taken when a key is configured")
+        else:
+            chk.fail("C05-D2f", fi, guard, text,
+                     "the fallback can replace a *configured* identity key "
+                     "(test not false for a non-empty key): a record that "
+                     "lacks the configured key is silently matched on its "
+                     "first field instead of being refused")
 
 
 # ---------------------------------------------------------------- D3 ------
@@ -1107,6 +1133,136 @@ def d1j_same_normalisation(chk: Check) -> None:
                        "needle is {} / {}.value".format(elem, elem))
 
 
+def d1l_results_are_used(chk: Check) -> None:
+    """The mergers return the merged node.  It is the left operand itself
+    in the accumulating modes, but another object in the replacing modes
+    (RIGHT; UNIQUE for arrays) -- and may be one for any shortcut a merger
+    takes.  Every caller therefore *uses* the returned object (stores it
+    where the left operand was held, hands it on, or returns it); a call
+    whose result is dropped silently loses a replacing merge."""
+    prog = chk.prog
+    chk.rule("C05-D1l", "no call of a merger (_merge_dicts / _merge_lists / "
+             "_merge_simple_lists / _merge_arrays_of_hashes / _merge_sets) "
+             "discards the merged node it returns", floor=10)
+    names = ("_merge_dicts", "_merge_lists", "_merge_simple_lists",
+             "_merge_arrays_of_hashes", "_merge_sets")
+    for fi in prog.funcs_in("yamlpath/merger/merger.py"):
+        for c in walk_local(fi.node):
+            if not (isinstance(c, ast.Call) and
+                    isinstance(c.func, ast.Attribute) and
+                    c.func.attr in names):
+                continue
+            p_ = parent(c)
+            text = "{}: {}(...)".format(fi.short, c.func.attr)
+            if isinstance(p_, ast.Expr):
+                # in-place use is sound only when the call cannot return
+                # another object than its first argument: not decidable
+                # here, so it must be the DEEP hash merger (which has no
+                # replacing mode and returns its left operand on all paths)
+                callee = prog.func("Merger." + c.func.attr)
+                rets = {src(r.value) for r in walk_local(callee.node)
+                        if isinstance(r, ast.Return) and r.value is not None}
+                if rets == {callee.params()[1]}:
+                    chk.ok("C05-D1l", fi, c, text,
+                           "result unused, but the callee returns its left "
+                           "operand on every path")
+                else:
+                    chk.fail("C05-D1l", fi, c, text,
+                             "the merged node is discarded although {} can "
+                             "return {}: with a replacing policy the target "
+                             "keeps its old content".format(
+                                 c.func.attr, sorted(rets)))
+            else:
+                chk.ok("C05-D1l", fi, c, text, "result stored / handed on")
+
+
+def d1k_snapshot_of_right_operand(chk: Check) -> None:
+    """After anchor unification (`replace_anchor`: equal same-name anchors
+    become one node) a list merger can be handed *one list as both
+    operands*.  A loop over the right operand that appends to the left one
+    then never ends.  The list mergers therefore iterate a snapshot of the
+    right operand (`list(rhs)`); the hash and set mergers only add under an
+    absence test on the left operand, which is false for every element of
+    the same object, and are not concerned."""
+    prog = chk.prog
+    chk.rule("C05-D1k", "the list mergers iterate a snapshot of their right "
+             "operand wherever the loop body can grow the left operand",
+             floor=2)
+    for q in ("Merger._merge_simple_lists", "Merger._merge_arrays_of_hashes"):
+        fi = prog.func(q)
+        lhs, rhs = fi.params()[1], fi.params()[2]
+        n = 0
+        for loop in walk_local(fi.node):
+            if not isinstance(loop, ast.For):
+                continue
+            roots = {x.id for x in ast.walk(loop.iter)
+                     if isinstance(x, ast.Name)}
+            if rhs not in roots:
+                continue
+            grows = any(
+                isinstance(c, ast.Call) and (
+                    (isinstance(c.func, ast.Attribute) and
+                     src(c.func.value) == lhs and
+                     c.func.attr in ("append", "insert", "extend")) or
+                    (src(c.func).endswith("append_list_element") and
+                     c.args and src(c.args[0]) == lhs))
+                for c in walk_local(loop))
+            if not grows:
+                continue
+            n += 1
+            it = loop.iter
+            inner = it.args[0] if isinstance(it, ast.Call) and \
+                src(it.func) == "enumerate" and it.args else it
+            snap = isinstance(inner, ast.Call) and \
+                src(inner.func) in ("list", "tuple") and inner.args and \
+                src(inner.args[0]) == rhs
+            text = "{}: for ... in {}".format(fi.short, src(it))
+            if snap:
+                chk.ok("C05-D1k", fi, loop, text, "snapshot of `{}`".format(
+                    rhs))
+            else:
+                chk.fail("C05-D1k", fi, loop, text,
+                         "the loop reads `{}` live and appends to `{}`: "
+                         "when both are one list (equal same-name anchors "
+                         "are unified into one node) the merge never "
+                         "ends".format(rhs, lhs))
+        if n == 0:
+            raise AnalysisError(fi.short + ": growing loop over the right "
+                                "operand not found")
+
+
+def d2h_option_names_fold_case(chk: Check, rid: str = "C05-D2h",
+                               relpaths=("yamlpath/merger/mergerconfig.py",
+                                         "yamlpath/differ/differconfig.py")
+                               ) -> None:
+    """The accessors look the policy names up in lower case (`arrays`,
+    `aoh`, ...), relying on ConfigParser folding option names.  Turning the
+    folding off (`optionxform = str`) makes `Arrays = unique` in a user's
+    file an unknown option that is silently ignored."""
+    prog = chk.prog
+    chk.rule(rid, "the configuration parser keeps ConfigParser's default "
+             "option-name folding (no store to `optionxform`)", floor=2)
+    for rel in relpaths:
+        for fi in prog.funcs_in(rel):
+            makes = [c for c in walk_local(fi.node) if isinstance(c, ast.Call)
+                     and src(c.func).endswith("ConfigParser")]
+            if not makes:
+                continue
+            bad = [n for n in walk_local(fi.node)
+                   if isinstance(n, ast.Attribute) and
+                   n.attr == "optionxform" and isinstance(n.ctx, ast.Store)]
+            bad += [k for c in makes for k in c.keywords]
+            text = "{}: ConfigParser()".format(fi.short)
+            if bad:
+                chk.fail(rid, fi, bad[0], text,
+                         "option names are no longer folded to lower case: "
+                         "the accessors' look-ups of `arrays`, `aoh`, "
+                         "`hashes`, ... miss `Arrays = ...` in the user's "
+                         "file and the built-in default is used instead")
+            else:
+                chk.ok(rid, fi, makes[0], text, "default option folding")
+
+
 def run(chk: Check) -> None:
     d1_lists(chk)
     d1_dicts(chk)
@@ -1116,6 +1272,9 @@ def run(chk: Check) -> None:
     d1h_list_routing(chk)
     d1i_own_keys_before_tests(chk)
     d1j_same_normalisation(chk)
+    d1l_results_are_used(chk)
+    d1k_snapshot_of_right_operand(chk)
+    d2h_option_names_fold_case(chk)
     from rules.shared import readonly_lookups_rule
     readonly_lookups_rule(chk, "C05-D2g",
                           ("yamlpath/merger/mergerconfig.py",), 1)
